@@ -391,6 +391,11 @@ func ruleEmitOnce(r *Report) {
 				if asFunc(cc.Value) != nil {
 					return
 				}
+				// the delegate: rangeWrite's own function-typed parameter, not a hook read from the
+				// collection's options
+				if !isDelegateOf(rw, cc.Value) {
+					return
+				}
 				n++
 				site = ins
 				if reachAvoiding(ins.Block(), ins.Block(), nil, nil) {
@@ -1462,7 +1467,9 @@ func ruleSingleSection(r *Report) {
 				}
 			})
 			for _, c := range userCallIn(f) {
-				cbs = append(cbs, c)
+				if isDelegateOf(rwf, c.Call.Value) {
+					cbs = append(cbs, c)
+				}
 			}
 			if len(acq) == 0 {
 				continue
@@ -1476,6 +1483,27 @@ func ruleSingleSection(r *Report) {
 			h.Check(ok, owner+"/bracket", r.P.InstrPos(acq[0]), "Lock ≺ callback ≺ Unlock, once each", "the latch loop does not bracket exactly one callback invocation with one exclusive acquire and one release")
 		}
 	}
+}
+
+// isDelegateOf: the callee value of a dynamic call is (a captured copy of, a helper's parameter
+// bound to) a function-typed parameter of fn itself.
+func isDelegateOf(fn *ssa.Function, callee ssa.Value) bool {
+	v := norm(callee)
+	for i := 0; i < 4; i++ {
+		p, ok := v.(*ssa.Parameter)
+		if !ok {
+			return false
+		}
+		if originOf(topFn(p.Parent())) == originOf(fn) && p.Parent().Parent() == nil {
+			return true
+		}
+		a := paramArg(p)
+		if a == nil {
+			return false
+		}
+		v = norm(a)
+	}
+	return false
 }
 
 // ruleReserve: C11.reserve
@@ -1716,6 +1744,7 @@ func ruleBlockLoops(r *Report) {
 		}
 		h.Check(ok, name, r.P.Pos(fn.Pos()), "for block := 0; block <= len(index)>>bitmapShift; block++", "the per-block loop does not visit every block of the selection from 0 up to and including the last (partial) one: rows of the skipped block are neither filtered nor iterated")
 	}
+	rulePairLoopCallsBack(r)
 }
 
 // monotoneGuard: the call is guarded only by loads of a local bool cell that starts false and is
